@@ -72,7 +72,7 @@ type wParams struct {
 // wStop is a user stop (client: Ctrl-C + a stop choice, i.e. StopTransferringFiles; server: SIGINT)
 // delivered just before scheduler step Step.
 type wStop struct {
-	Side   string `json:"side"` // client | server
+	Side   string `json:"side"` // client | server | wire (a failure line from the peer appears on the wire next to the client)
 	Delete bool   `json:"delete,omitempty"`
 	Step   int    `json:"step"`
 	// AtMs > 0: delivered that long (virtual) after the transfer began instead of before scheduler step Step.
@@ -1257,6 +1257,11 @@ func (w *world) installEvents() {
 			})
 		}
 		fire := func() {
+			if st.Side == "wire" {
+				// the peer gives up on its own: a failure line arrives on the wire next to the client (between two lines of the server)
+				w.s2c[0].Write([]byte("#fail:" + encodeString("peer gave up") + "\n"))
+				return
+			}
 			if st.Side == "server" {
 				w.stopAt = vs.Elapsed()
 				w.stopHit = !w.srvDone
